@@ -153,8 +153,9 @@ Section CodecP.
       step_bind. rewrite ptake_app.
       step_bind. rewrite ptake_app.
       step_bind.
-      assert (Hv : match c with CNone => Some (stored_of v c) | CLz4 => decompress (stored_of v c) (blen v) end = Some v).
-      { destruct c; cbn [Codec.stored_of]; [reflexivity|]. apply Wl. reflexivity. }
+      assert (Hv : match c with CNone => if blen v =? blen (stored_of v c) then Some (stored_of v c) else None
+                                | CLz4 => decompress (stored_of v c) (blen v) end = Some v).
+      { destruct c; cbn [Codec.stored_of]; [rewrite N.eqb_refl; reflexivity|]. apply Wl. reflexivity. }
       rewrite Hv. unfold pret.
       pose proof (enc_entry_blen_item ks k v vt c) as HL. cbn [Codec.enc_entry] in HL. fold (stored_of v c) in HL.
       rewrite HL. do 2 f_equal. lia.
